@@ -162,16 +162,26 @@ def main():
                 if kw.pop("audit", False):
                     kw["audit_flags"] = AuditFlag.PROV
                 sub = Submitter(cache_root=step["cache"], **kw)
-                job = Job(task, submitter=sub, name="main")
+                hk = {}
+                if step.get("hooks"):
+                    from simlib import workload as _wl
+
+                    hk = {"hooks": _wl.logging_hooks()}
+                job = Job(task, submitter=sub, name="main", **hk)
                 r["checksum"] = job.checksum
                 r["state"] = pub_state(sub)
+                r["state"]["hooks"] = {h: getattr(getattr(job.hooks, h), "__name__", "?") for h in ("pre_run", "pre_run_task", "post_run_task", "post_run")}
                 with open(step["pkl"], "wb") as f:
                     cp.dump(job, f)
                 # reference: the same task run in this session into another cache
                 refkw = {"audit_flags": kw["audit_flags"]} if "audit_flags" in kw else {}
                 try:
+                    if hk:
+                        refkw["hooks"] = _wl.logging_hooks()
                     ref = make_task(step["task"], random.Random(prog["perm"] + 1))(cache_root=step["refcache"], worker="debug", **refkw)
                     r["out"] = outputs_plain(ref)
+                    if hk:
+                        r["hooks_called"] = _wl.hooks_called(step["refcache"], r["checksum"])
                 except Exception as e:  # the task cannot run with this configuration at all
                     r["ref_error"] = f"{type(e).__name__}: {str(e)[:150]}"
             elif kind == "job-load-run":
@@ -180,6 +190,7 @@ def main():
                 job = load_job(step["pkl"])
                 r["checksum"] = job.checksum
                 r["state"] = pub_state(job.submitter)
+                r["state"]["hooks"] = {h: getattr(getattr(job.hooks, h), "__name__", "?") for h in ("pre_run", "pre_run_task", "post_run_task", "post_run")}
                 from pathlib import Path
 
                 load_and_run(Path(step["pkl"]))
@@ -187,6 +198,10 @@ def main():
                 r["errored"] = bool(res.errored)
                 r["out"] = outputs_plain(res.outputs)
                 r["result_dir"] = str(job.cache_dir)
+                if step.get("hooks"):
+                    from simlib import workload as _wl
+
+                    r["hooks_called"] = _wl.hooks_called(job.cache_root, r["checksum"])
             elif kind == "result-load":
                 with open(os.path.join(step["result_dir"], "_result.pklz"), "rb") as f:
                     res = cp.load(f)
